@@ -72,7 +72,7 @@ def gen_spec(seed, index, tier):
     rng = core.rng_of(seed, "c17")
     calcs = peers.ALL_CALCULATORS + ["vasp", "vasp"]  # vasp is the one format whose output carries positions: more delivery runs
     calc = calcs[index % len(calcs)] if rng.random() < 0.8 else rng.choice(calcs)
-    names = ["nacl_prim", "cscl", "hcp", "bct", "tric", "mono", "wurtzite", "rutile_mixed", "nacl_mixed_out", "ortho_c", "rhombo_hex", "nacl", "si", "rutile", "perovskite"]
+    names = ["nacl_prim", "cscl", "hcp", "bct", "tric", "mono", "wurtzite", "rutile_mixed", "nacl_mixed_out", "ortho_c", "rhombo_hex", "nacl", "si", "rutile", "perovskite", "afm_mixed", "bcc_afm"]
     w = World.generate(seed, names=names, max_atoms=rng.choice([8, 16, 16, 24]))
     faulty = (index // len(calcs)) % 3 != 0  # not index % 3: len(calcs) is a multiple of 3 and would tie the fault family to the calculator
     faults = []
@@ -135,8 +135,9 @@ def child_displace(args):
     w = World(spec["world"])
     L = peers.UNITS[calc][0]
     c0 = w.unitcell()
-    cell = PhonopyAtoms(symbols=c0.symbols, cell=np.array(c0.cell) / L, scaled_positions=c0.scaled_positions)
-    out = {"steps": [], "violations": []}
+    mm = None if c0.magnetic_moments is None else np.array(c0.magnetic_moments, dtype=float)
+    cell = PhonopyAtoms(symbols=c0.symbols, cell=np.array(c0.cell) / L, scaled_positions=c0.scaled_positions, magnetic_moments=mm)
+    out = {"steps": [], "violations": [], "super_magmoms": None}
     if spec.get("_forces_only"):
         # no structure files: the supercells go to the peer as objects, only the calculator's force output is a file
         units = get_default_physical_units(calc)
@@ -178,11 +179,21 @@ def child_displace(args):
     if ucell is None:
         out["violations"].append({"class": "structure-roundtrip", "site": "%s:unitcell:reader-returns-nothing" % calc, "detail": str(info)})
         return out
-    ok, how, _ = same_crystal(cell.cell, cell.scaled_positions, cell.symbols, ucell.cell, ucell.scaled_positions, ucell.symbols)
+    ok, how, order0 = same_crystal(cell.cell, cell.scaled_positions, cell.symbols, ucell.cell, ucell.scaled_positions, ucell.symbols)
     if not ok:
         out["violations"].append({"class": "structure-roundtrip", "site": "%s:unitcell%s" % (calc, ":interleaved-species" if spec.get("_interleaved") else ""), "detail": how})
         return out
     out["unitcell_how"] = how
+    if mm is not None:
+        # magnetic moments: formats that carry them in the structure file must give them back on the right atoms; for the
+        # others the user states them separately (MAGMOM tag), here in the order of the cell that was read
+        want = mm[order0]
+        got = ucell.magnetic_moments
+        if calc in peers.MAGMOMS_IN_STRUCTURE_FILE:
+            if got is None or np.shape(got) != np.shape(want) or not np.allclose(np.array(got, dtype=float), want, atol=1e-8):
+                out["violations"].append({"class": "structure-roundtrip", "site": "%s:unitcell:magnetic-moments" % calc,
+                                          "detail": "written %s read %s" % (want.tolist(), None if got is None else np.array(got).tolist())})
+        ucell.magnetic_moments = want
     # the dispatcher must accept what read_crystal_structure returned (its documented contract), and the result must read back
     il = ":interleaved-species" if spec.get("_interleaved") else ""
     wrote = False
@@ -232,6 +243,8 @@ def child_displace(args):
         supercell=dict(lattice=np.array(sc.cell), positions=np.array(sc.scaled_positions), symbols=list(sc.symbols)),
         displaced=[dict(positions=np.array(c.scaled_positions)) for c in ph.supercells_with_displacements],
         dataset=ph.dataset, unit_symbols=list(ucell.symbols), unitcell=dict(lattice=np.array(ucell.cell), positions=np.array(ucell.scaled_positions), symbols=list(ucell.symbols)), species_in_file_order=list(dict.fromkeys(ucell.symbols)),
+        super_magmoms=(None if sc.magnetic_moments is None else np.array(sc.magnetic_moments, dtype=float)),
+        magmom_file=(open("MAGMOM").read() if os.path.exists("MAGMOM") else None),
     )
     # the model lives on phonopy's supercell (angstrom)
     from phonopy.structure.atoms import PhonopyAtoms as PA
@@ -509,6 +522,27 @@ def execute(spec):
                             break
                         if how != "same order":
                             any_reordered = True
+                        sm = p1.get("super_magmoms")
+                        if sm is not None:
+                            want_m = sm[order]
+                            if calc in peers.MAGMOMS_IN_STRUCTURE_FILE:
+                                got_m = rc.magnetic_moments
+                                if got_m is None or np.shape(got_m) != np.shape(want_m) or not np.allclose(np.array(got_m, dtype=float), want_m, atol=1e-8):
+                                    V("structure-roundtrip", "%s:displaced-supercell:magnetic-moments" % calc, file=fn, written=want_m.tolist(),
+                                      read=None if got_m is None else np.array(got_m).tolist())
+                                probes["magnetic_moments_in_structure_file:%s" % calc] = 1
+                            elif i == 0 and calc in ("vasp", "qe"):
+                                # the MAGMOM file written next to the supercells lists the moments in the atom order of those files
+                                txt = p1.get("magmom_file")
+                                vals = None
+                                if txt and "=" in txt:
+                                    try:
+                                        vals = np.array([float(x) for x in txt.split("=", 1)[1].split()])
+                                    except ValueError:
+                                        vals = None
+                                if vals is None or vals.shape != want_m.shape or not np.allclose(vals, want_m, atol=1e-8):
+                                    V("structure-roundtrip", "%s:MAGMOM-file-order" % calc, magmom_file=(txt or "")[:200], atoms_in_written_file=want_m.tolist())
+                                probes["magmom_file_checked:%s" % calc] = 1
                         # precision the format itself carries: position error of the read-back file relative to the displacement
                         intended = np.array(p1["displaced"][i]["positions"])[order]
                         dd_ = np.array(rc.scaled_positions) - intended
